@@ -271,6 +271,9 @@ REPROJ = [
     ('Gbig/cascade/3857<-4326', 'EPSG:3857', 5000, 'EPSG:4326', [('1.1.1', False), ('1.3.0', True)]),
     ('Gbig/cascade/4326<-3857', 'EPSG:4326', 0.05, 'EPSG:3857', [('1.1.1', False), ('1.3.0', False)]),
     ('Gbig/cascade/3857', 'EPSG:3857', 5000, 'EPSG:3857', [('1.1.1', False), ('1.3.0', False)]),
+    # the upstream speaks WMS 1.3.0 and degrees: BBOX in latitude / longitude order, I / J
+    ('Gbig/4326<-3857/up130', 'EPSG:4326', 0.05, 'EPSG:3857', [('1.1.1', False), ('1.3.0', False)]),
+    ('Gbig/cascade/4326<-3857/up130', 'EPSG:4326', 0.05, 'EPSG:3857', [('1.1.1', False)]),
 ]
 
 
@@ -406,8 +409,10 @@ def reprojected_phase(ctx):
     for name, gsrs, scale, rsrs, variants in REPROJ:
         problems = []
         kw = {}
+        if name.endswith('/up130'):
+            kw['upstream_version'] = '1.3.0'
         if '/cascade/' in name:
-            kw = dict(source_coverage=g['bbox'], extra_conf={'layers': [{'name': 'lay', 'title': 'lay', 'sources': ['up']}]})
+            kw.update(source_coverage=g['bbox'], extra_conf={'layers': [{'name': 'lay', 'title': 'lay', 'sources': ['up']}]})
         app = L.LatticeApp(g, srs=gsrs, scale=scale, wms_srs=sorted({gsrs, rsrs}), meta_size=(1, 1), featureinfo=True, **kw)
         try:
             maps = observe_reprojected(app, g, gsrs, rsrs, scale, variants, reproj_requests(g, ctx.rng, n), ctx.rng, problems)
